@@ -7,11 +7,11 @@ MODULES = ["Mimium.Props.C08"]
 
 def compare_stream(ctx, name, mmh_args, stats, stdin_data=None):
     """run implementation and model on one stream of layout pairs; returns list of problem records"""
-    p = mmh(["c08"] + mmh_args, input=stdin_data)
+    p = mmh("C08", mmh_args, input=stdin_data)
     if p.returncode != 0:
         return [{"kind": "harness-crash", "stream": name, "stderr": p.stderr[-2000:]}]
     impl = p.stdout
-    q = driver(["c08"], input=impl)
+    q = driver("C08", input=impl)
     if q.returncode != 0:
         return [{"kind": "driver-crash", "stream": name, "stderr": q.stderr[-2000:]}]
     il, ml = impl.split("\n"), q.stdout.split("\n")
